@@ -581,6 +581,9 @@ func (run *FuncRun) applyContract(st *State, fc *FuncContract, sig *types.Signat
 		}
 		env.vars[names[i]] = CVal{T: t, Type: ptypes[i]}
 	}
+	if len(copies) > 0 {
+		*pre = *st.Snap() // the pre-state includes the copied-in cells
+	}
 	where := run.posOf(in)
 	st.script.Comment("call " + fc.Key + " @ " + where)
 	for _, n := range names {
